@@ -77,6 +77,15 @@ where
         if !self.visit_index(&index) {
             self.process_unvisited_index(index, handler)
         } else {
+            // An edge can be visited before it is met in its node's list of
+            // edges (when it is the origin of the search). The list is
+            // expanded lazily one edge at a time so it must be continued
+            // past the visited edge.
+            if index.index.is_edge() {
+                self.algorithm
+                    .expand(index, self.graph, self.storage, false);
+            }
+
             Ok(true)
         }
     }
